@@ -129,6 +129,12 @@ func rewriteExpr(e ast.Expr) ast.Expr {
 				counts["lock"]++
 				return call(sel.Sel.Name, &ast.UnaryExpr{Op: token.AND, X: sel.X})
 			}
+			if len(x.Args) == 0 && sel.Sel.Name == "TryLock" {
+				// a lock that can be tested without blocking makes "held" observable: TryLock becomes a
+				// scheduling point and (see the init emitted below) so does every Unlock
+				counts["trylock"]++
+				return call("TryLock", &ast.UnaryExpr{Op: token.AND, X: sel.X})
+			}
 			if len(x.Args) == 0 && (sel.Sel.Name == "RLock" || sel.Sel.Name == "RUnlock" || sel.Sel.Name == "Wait") {
 				unsupported = append(unsupported, sel.Sel.Name)
 			}
@@ -461,6 +467,9 @@ func main() {
 		os.Exit(2)
 	}
 	buf.WriteString("\nvar _ = vsched.Yield\n")
+	if counts["trylock"] > 0 {
+		buf.WriteString("\nfunc init() { vsched.UnlockIsPoint = true }\n")
+	}
 	if err := os.WriteFile(os.Args[2], buf.Bytes(), 0o644); err != nil {
 		fmt.Fprintln(os.Stderr, err)
 		os.Exit(2)
